@@ -11,8 +11,35 @@ pub const TOL_F32: f64 = 1e-4;
 /// importances must sum to one within this
 pub const TOL_SUM: f64 = 1e-5;
 
+/// unit roundoff of f32 (linfa accumulates sample weights in f32)
+pub const U32: f64 = 5.9604644775390625e-8; // 2^-24
+
+/// Slack of a leaf's modal class when the weights do not sum exactly in f32. linfa takes the arg-max
+/// of per-class totals that are sequential f32 sums: a class total of m_c terms carries an error of at
+/// most (m_c - 1) u S_c. If linfa prefers c over the exact best b then fl(S_c) >= fl(S_b), hence
+/// S_c >= S_b - (m_b - 1) u S_b - (m_c - 1) u S_c >= S_b - 2 m u S_max (m rows in the leaf). Merging two
+/// sibling leaves that agree (prune) adds their slacks, which stays below the same bound for the union.
+pub fn mode_slack(rows: usize, best: f64) -> f64 {
+    2.0 * rows as f64 * U32 * best
+}
+/// Slack of the running side weights compared with min_weight_leaf: the node total is an f32 sum over
+/// <= 8 class totals of m rows (error <= (m + 7) u W), the left side a sequential sum of <= m terms, the
+/// right side the total minus <= m terms: error <= (2m + 7) u W, used as 4 (m + 8) u W.
+pub fn side_slack(rows: usize, total: f64) -> f64 {
+    4.0 * (rows as f64 + 8.0) * U32 * total
+}
+/// Extra tolerance of a reported impurity decrease for inexact weights: a class weight on one side is
+/// off by at most 2 m u W, i.e. a share error d = 2 m u W / W_side; gini moves by <= 4 d, entropy by
+/// <= 8 d log2(1/d) over <= 8 classes; the side's impurity enters the score with factor W_side / W, so
+/// the side weight cancels: error <= 2 m u * 8 * 30 (log2(1/d) <= 30 for d >= 1e-9).
+pub fn decrease_slack(rows: usize) -> f64 {
+    480.0 * rows as f64 * U32
+}
+
 /// the one signature that stands for the known "midpoint rounded onto a training value" defect
 pub const SIG_ROUNDED: &str = "route:midpoint-rounded-onto-training-value";
+/// signature of "a split whose one side is only the rounding residue of f32 weight sums"
+pub const SIG_RESIDUE: &str = "fit:empty-side-weight-residue";
 
 fn impurity(freq: &[f64], entropy: bool) -> f64 {
     let w: f64 = freq.iter().sum();
@@ -92,6 +119,7 @@ pub fn judge(c: &Case, fit: &Fitted, obs: &mut Obs) {
         return;
     }
     let mut loc: Vec<Local> = vec![];
+    let exact = c.weights_exact();
 
     // ---------------------------------------------------------------- shape and depth
     let root = &nodes[0];
@@ -217,6 +245,34 @@ pub fn judge(c: &Case, fit: &Fitted, obs: &mut Obs) {
         }
     }
     obs.class_if(gated.iter().any(|g| *g), "threshold_equals_training_value");
+
+    // ---------------------------------------------------------------- nodes split on a weight residue
+    // residue[i]: node i was split although one side receives no training row, the weights are inexact in
+    // f32 and min_weight_leaf is not larger than the rounding residue the running side weight can carry:
+    // the sweep took the residue of the f32 sums for the weight of a non-empty side.
+    let mut residue = vec![false; nodes.len()];
+    if !exact {
+        for i in 0..nodes.len() {
+            let nd = &nodes[i];
+            if let Some(pi) = nd.parent {
+                if residue.get(pi).copied().unwrap_or(false) {
+                    residue[i] = true;
+                    continue;
+                }
+            }
+            let was_split = !nd.is_leaf || nd.left.is_some() || nd.right.is_some();
+            if !was_split || nd.feat >= p {
+                continue;
+            }
+            let Some(mine) = rows[i].as_ref() else { continue };
+            let nl = mine.iter().filter(|&&r| x[r][nd.feat] < nd.thr).count();
+            let wsum: f64 = mine.iter().map(|&r| w[r]).sum();
+            if (nl == 0 || nl == mine.len()) && (c.min_weight_leaf as f64) <= side_slack(mine.len(), wsum) {
+                residue[i] = true;
+            }
+        }
+    }
+    obs.class_if(residue.iter().any(|g| *g), "split_on_weight_residue");
     if any_plain_tie {
         obs.class("threshold_on_sample_not_rounding");
     }
@@ -243,7 +299,8 @@ pub fn judge(c: &Case, fit: &Fitted, obs: &mut Obs) {
         }
         let wl: f64 = 0.0 + l.iter().map(|&r| w[r]).sum::<f64>();
         let wr: f64 = 0.0 + r.iter().map(|&r| w[r]).sum::<f64>();
-        if wl < c.min_weight_leaf as f64 || wr < c.min_weight_leaf as f64 {
+        let wslack = if exact { 0.0 } else { side_slack(cnt, wsum) };
+        if wl < c.min_weight_leaf as f64 - wslack || wr < c.min_weight_leaf as f64 - wslack {
             loc.push(Local {
                 node: Some(i),
                 sig: "limit:min-weight-leaf",
@@ -266,7 +323,8 @@ pub fn judge(c: &Case, fit: &Fitted, obs: &mut Obs) {
         } else {
             0.0
         };
-        if (nd.dec - actual).abs() > TOL_F32 {
+        let dtol = if exact { TOL_F32 } else { TOL_F32 + decrease_slack(cnt) };
+        if (nd.dec - actual).abs() > dtol {
             loc.push(Local {
                 node: Some(i),
                 sig: "split:impurity-decrease-value",
@@ -290,6 +348,7 @@ pub fn judge(c: &Case, fit: &Fitted, obs: &mut Obs) {
     let mut weighted_tie = false;
     let mut depth_binding = false;
     let mut floor_mws_leaf = false;
+    let mut near_tie = false;
     for (i, nd) in nodes.iter().enumerate() {
         if !nd.is_leaf {
             continue;
@@ -309,9 +368,16 @@ pub fn judge(c: &Case, fit: &Fitted, obs: &mut Obs) {
         }
         let f = freq_of(mine, &yl, &w);
         let best = f.iter().cloned().fold(0.0, f64::max);
-        let modes: Vec<usize> = (0..f.len()).filter(|&k| f[k] == best).collect();
-        if modes.len() >= 2 {
+        let mslack = if exact { 0.0 } else { mode_slack(mine.len(), best) };
+        let modes: Vec<usize> = (0..f.len()).filter(|&k| f[k] > 0.0 && f[k] >= best - mslack).collect();
+        if (0..f.len()).filter(|&k| f[k] == best).count() >= 2 {
             weighted_tie = true;
+        }
+        // near tie: a lighter class within 1e-5 (absolute or relative) of the heaviest one but outside the
+        // slack, and the heaviest class is not the smallest label among them
+        let top = (0..f.len()).find(|&k| f[k] == best).unwrap_or(0);
+        if (0..top).any(|k| f[k] > 0.0 && f[k] < best - mslack && (best - f[k] < 1e-5 || best - f[k] < 1e-5 * best)) {
+            near_tie = true;
         }
         let impure = f.iter().filter(|v| **v > 0.0).count() >= 2;
         if impure && c.max_depth.map(|d| d as usize == nd.depth).unwrap_or(false) {
@@ -331,7 +397,7 @@ pub fn judge(c: &Case, fit: &Fitted, obs: &mut Obs) {
                 node: Some(i),
                 sig: "leaf:not-a-mode",
                 msg: format!(
-                    "leaf {i} predicts class id {pred} but the class weights of the {} training rows reaching it are {:?}",
+                    "leaf {i} predicts class id {pred} but the class weights of the {} training rows reaching it are {:?} (f64 sums of the f32 weights; accepted slack below the maximum: {mslack:e})",
                     mine.len(),
                     &f[..6]
                 ),
@@ -339,6 +405,7 @@ pub fn judge(c: &Case, fit: &Fitted, obs: &mut Obs) {
         }
     }
     obs.class_if(weighted_tie, "leaf_weighted_tie");
+    obs.class_if(near_tie, "leaf_near_tie_heavier_label_not_smallest");
     obs.class_if(depth_binding, "max_depth_binding");
     obs.class_if(floor_mws_leaf, "impure_leaf_with_floor_min_weight_split_rows");
 
@@ -432,15 +499,36 @@ pub fn judge(c: &Case, fit: &Fitted, obs: &mut Obs) {
 
     // ---------------------------------------------------------------- report
     let mut rounded: Vec<String> = vec![];
+    let mut residue_msgs: Vec<String> = vec![];
     for f in loc {
         let g = f.node.map(|i| gated.get(i).copied().unwrap_or(false)).unwrap_or(false);
-        if g {
+        let r = f.node.map(|i| residue.get(i).copied().unwrap_or(false)).unwrap_or(false);
+        if r {
+            if residue_msgs.len() < 4 {
+                residue_msgs.push(format!("[{}] {}", f.sig, f.msg));
+            }
+        } else if g {
             if rounded.len() < 4 {
                 rounded.push(format!("[{}] {}", f.sig, f.msg));
             }
         } else {
             obs.fail(f.sig, f.msg);
         }
+    }
+    if !residue_msgs.is_empty() {
+        let first = residue.iter().position(|g| *g).unwrap_or(0);
+        let nd = &nodes[first];
+        obs.fail(
+            SIG_RESIDUE,
+            format!(
+                "node {first} was split on feature {} at {:?} although one side receives no training row: with inexact f32 weights (scale {:e}) the running side weight keeps a rounding residue >= min_weight_leaf {}. Failures at or below that node: {}",
+                nd.feat,
+                nd.thr,
+                c.scale(),
+                c.min_weight_leaf,
+                residue_msgs.join(" | ")
+            ),
+        );
     }
     if !rounded.is_empty() {
         let first = gated.iter().position(|g| *g).unwrap_or(0);
@@ -474,5 +562,5 @@ pub fn judge(c: &Case, fit: &Fitted, obs: &mut Obs) {
     }
 
     // ---------------------------------------------------------------- non-trivial rule
-    obs.nontrivial_if(n_splits >= 2 || weighted_tie || c.has_adjacent());
+    obs.nontrivial_if(n_splits >= 2 || weighted_tie || near_tie || c.has_adjacent());
 }
